@@ -1,1 +1,1033 @@
-fn main() {}
+//! C08 — every JWS the library produces decodes and verifies to what was signed.
+//!
+//! (a) `encoders` (full product): encoder {Compact::new, Compact(NonDetached Default|UrlSafe), Compact(Detached),
+//!     Flattened attached|detached, General attached|detached with 1..3 recipients} x per-recipient header
+//!     placement (7) x b64 mode (5) x payload menu (14). Whatever the encoder ACCEPTS is signed with a fixed-seed
+//!     Ed25519 key per recipient, finished with `into_jws` and fed to the matching decoder (detached payload
+//!     supplied iff detached). Oracle: decodes; signing input, claims, both headers and signature bytes equal what
+//!     was signed; the signing input equals the RFC 7515 §5.1 / RFC 7797 §3 formula evaluated on the TOKEN text;
+//!     verifies under the recipient's key and not under another key.
+//! (b) `storage` (E1 choice DFS, deviation-bounded): CoreDocument with m1 (assertionMethod, embedded), m2 (general),
+//!     m3 (general, referenced from authentication) generated in JwkMemStore/KeyIdMemstore; entry
+//!     {create_jws, create_credential_jwt, create_presentation_jwt} x method x payload x JwsSignatureOptions
+//!     {kid override (custom / other method / fragment / own id), attach_jwk, b64, typ, cty, url, nonce, custom
+//!     parameters, detached}. Every produced token: decoded by the library's decoder, compared with the bytes the
+//!     key store was asked to sign, header checked against the options, then verified through
+//!     `CoreDocument::verify_jws` under EVERY (method_id in {none,m1,m2,m3}) x (scope in {none + 6}) x (nonce in
+//!     {same, different, presence flipped}) and against a twin document with the same ids and other keys.
+
+use async_trait::async_trait;
+use identity_core::common::{Object, Url};
+use identity_core::convert::ToJson;
+use identity_credential::credential::{Credential, CredentialBuilder, Jwt, Subject};
+use identity_credential::presentation::{JwtPresentationOptions, Presentation, PresentationBuilder};
+use identity_did::{CoreDID, DIDUrl};
+use identity_document::document::CoreDocument;
+use identity_document::verifiable::JwsVerificationOptions;
+use identity_eddsa_verifier::EdDSAJwsVerifier;
+use identity_jose::jwk::Jwk;
+use identity_jose::jws::{
+  CharSet, CompactJwsEncoder, CompactJwsEncodingOptions, Decoder, FlattenedJwsEncoder, GeneralJwsEncoder, JwsAlgorithm, JwsHeader,
+  JwsValidationItem, JwsVerifier, Recipient, VerificationInput,
+};
+use identity_storage::{
+  JwkDocumentExt, JwkGenOutput, JwkMemStore, JwkStorage, JwsSignatureOptions, KeyId, KeyIdMemstore, KeyStorageResult, KeyType, Storage,
+};
+use identity_verification::{MethodData, MethodRelationship, MethodScope};
+use serde::{Deserialize, Serialize};
+use std::cell::RefCell;
+use std::collections::BTreeMap;
+use std::sync::atomic::{AtomicU64, Ordering};
+use vx::choice::{self, Chooser};
+use vx::fx::EdKey;
+use vx::rayon::prelude::*;
+use vx::{guard, json, Ctx, Level, Value};
+
+// ------------------------------------------------------------------ shared alphabets
+fn payloads() -> Vec<Vec<u8>> {
+  vec![
+    br#"{"x":1}"#.to_vec(),
+    b"a".to_vec(),
+    b"a.b".to_vec(),
+    br#"q"uote"#.to_vec(),
+    br"back\slash".to_vec(),
+    b"line\nfeed".to_vec(),
+    "\u{e9}".as_bytes().to_vec(),
+    vec![0xff, 0x00],
+    b"~url-safe_".to_vec(),
+    b" sp ace ".to_vec(),
+    vec![0x7f],
+    (0..300).map(|i| b'A' + (i % 26) as u8).collect(),
+    b"nul\0tab\t".to_vec(),
+    b"{\"iss\":\"joe\",\r\n \"exp\":1300819380}".to_vec(),
+  ]
+}
+const N_PAYLOADS: usize = 14;
+/// Does the JSON string form of this text need an escape (RFC 8259 §7: `"`, `\`, U+0000..U+001F)?
+fn needs_json_escape(p: &[u8]) -> bool {
+  p.iter().any(|b| *b == b'"' || *b == b'\\' || *b < 0x20)
+}
+
+// own base64url (RFC 4648 §5, no padding), independent of the library's
+const B64: &[u8; 64] = b"ABCDEFGHIJKLMNOPQRSTUVWXYZabcdefghijklmnopqrstuvwxyz0123456789-_";
+fn b64url(data: &[u8]) -> String {
+  let mut s = String::new();
+  for c in data.chunks(3) {
+    let n = (c[0] as u32) << 16 | (*c.get(1).unwrap_or(&0) as u32) << 8 | *c.get(2).unwrap_or(&0) as u32;
+    s.push(B64[(n >> 18) as usize & 63] as char);
+    s.push(B64[(n >> 12) as usize & 63] as char);
+    if c.len() > 1 {
+      s.push(B64[(n >> 6) as usize & 63] as char);
+    }
+    if c.len() > 2 {
+      s.push(B64[n as usize & 63] as char);
+    }
+  }
+  s
+}
+fn b64url_decode(s: &str) -> Option<Vec<u8>> {
+  let mut out = Vec::new();
+  let mut acc = 0u32;
+  let mut bits = 0;
+  for ch in s.bytes() {
+    let v = B64.iter().position(|c| *c == ch)? as u32;
+    acc = acc << 6 | v;
+    bits += 6;
+    if bits >= 8 {
+      bits -= 8;
+      out.push((acc >> bits) as u8);
+      acc &= (1 << bits) - 1;
+    }
+  }
+  Some(out)
+}
+/// RFC 7515 §5.1 step 5 / RFC 7797 §3: ASCII(BASE64URL(UTF8(protected header))) || '.' || (b64 ? BASE64URL(payload) : payload)
+fn formula(protected_b64: &str, b64: bool, payload: &[u8]) -> Vec<u8> {
+  let mut v = protected_b64.as_bytes().to_vec();
+  v.push(b'.');
+  if b64 {
+    v.extend(b64url(payload).as_bytes());
+  } else {
+    v.extend(payload);
+  }
+  v
+}
+fn header_json(h: Option<&JwsHeader>) -> Value {
+  match h {
+    None => Value::Null,
+    Some(h) => serde_json::to_value(h).unwrap_or(json!("unserialisable")),
+  }
+}
+fn err_kind<E: std::fmt::Debug>(e: &E) -> String {
+  let s = format!("{e:?}");
+  s.split(|c: char| !c.is_alphanumeric()).next().unwrap_or("").to_string()
+}
+
+#[derive(Default)]
+struct Verdict {
+  outcome: String,
+  viol: Vec<(String, String)>,
+  nontrivial: bool,
+}
+impl Verdict {
+  fn v(&mut self, key: impl Into<String>, what: impl Into<String>) {
+    self.viol.push((key.into(), what.into()));
+  }
+}
+
+#[derive(Serialize, Deserialize, Debug, Clone, PartialEq)]
+enum Case {
+  /// encoder index (ENC), payload index, per recipient (placement index, b64 mode index)
+  Enc { enc: u8, payload: u8, recips: Vec<(u8, u8)> },
+  /// choice sequence of the storage body (`note` = the labelled choices, informative only)
+  Store {
+    seq: Vec<u32>,
+    #[serde(default)]
+    note: Vec<String>,
+  },
+}
+
+// ================================================================== (a) encoders
+const ENC: [&str; 8] = [
+  "CompactJwsEncoder::new",
+  "CompactJwsEncoder(NonDetached,Default)",
+  "CompactJwsEncoder(NonDetached,UrlSafe)",
+  "CompactJwsEncoder(Detached)",
+  "FlattenedJwsEncoder(attached)",
+  "FlattenedJwsEncoder(detached)",
+  "GeneralJwsEncoder(attached)",
+  "GeneralJwsEncoder(detached)",
+];
+fn enc_family(enc: u8) -> &'static str {
+  match enc {
+    0..=3 => "CompactJwsEncoder",
+    4 | 5 => "FlattenedJwsEncoder",
+    _ => "GeneralJwsEncoder",
+  }
+}
+fn enc_detached(enc: u8) -> bool {
+  matches!(enc, 3 | 5 | 7)
+}
+const PLACEMENT: [&str; 7] = [
+  "protected{alg,kid,typ,x-app}",
+  "protected{alg,kid}+unprotected{typ,x-app}",
+  "protected{kid,typ,x-app}+unprotected{alg}",
+  "unprotected{alg,kid,typ,x-app}",
+  "protected{alg}",
+  "protected{alg,kid}+unprotected{kid,typ} (overlap)",
+  "no header",
+];
+const B64MODE: [&str; 5] = ["absent", "true+crit", "false+crit", "false, no crit", "false+crit in the unprotected header"];
+
+/// The headers of recipient `i` for (placement, b64 mode).
+fn headers(i: usize, placement: u8, b64: u8) -> (Option<JwsHeader>, Option<JwsHeader>) {
+  let mut p = JwsHeader::new();
+  let mut u = JwsHeader::new();
+  let (mut has_p, mut has_u) = (false, false);
+  let custom = |h: &mut JwsHeader| {
+    let mut m = BTreeMap::new();
+    m.insert("x-app".to_string(), json!({"n": i}));
+    h.set_custom(m)
+  };
+  let kid = format!("key-{i}");
+  match placement {
+    0 => {
+      p.set_alg(JwsAlgorithm::EdDSA);
+      p.set_kid(kid);
+      p.set_typ("example");
+      custom(&mut p);
+      has_p = true;
+    }
+    1 => {
+      p.set_alg(JwsAlgorithm::EdDSA);
+      p.set_kid(kid);
+      u.set_typ("example");
+      custom(&mut u);
+      has_p = true;
+      has_u = true;
+    }
+    2 => {
+      p.set_kid(kid);
+      p.set_typ("example");
+      custom(&mut p);
+      u.set_alg(JwsAlgorithm::EdDSA);
+      has_p = true;
+      has_u = true;
+    }
+    3 => {
+      u.set_alg(JwsAlgorithm::EdDSA);
+      u.set_kid(kid);
+      u.set_typ("example");
+      custom(&mut u);
+      has_u = true;
+    }
+    4 => {
+      p.set_alg(JwsAlgorithm::EdDSA);
+      has_p = true;
+    }
+    5 => {
+      p.set_alg(JwsAlgorithm::EdDSA);
+      p.set_kid(kid.clone());
+      u.set_kid(kid);
+      u.set_typ("example");
+      has_p = true;
+      has_u = true;
+    }
+    _ => {}
+  }
+  match b64 {
+    1 => {
+      p.set_b64(true);
+      p.set_crit(["b64"]);
+      has_p = true;
+    }
+    2 => {
+      p.set_b64(false);
+      p.set_crit(["b64"]);
+      has_p = true;
+    }
+    3 => {
+      p.set_b64(false);
+      has_p = true;
+    }
+    4 => {
+      u.set_b64(false);
+      u.set_crit(["b64"]);
+      has_u = true;
+    }
+    _ => {}
+  }
+  (has_p.then_some(p), has_u.then_some(u))
+}
+
+struct Signed {
+  signing_input: Vec<u8>,
+  signature: Vec<u8>,
+}
+
+fn pub_key(i: usize) -> Jwk {
+  EdKey::new(i as u8 + 1).public_with_alg("EdDSA")
+}
+
+/// Run the encoder; Ok((token, what was signed per recipient)) or Err(step, error kind) if it refuses.
+fn encode(enc: u8, payload: &[u8], hs: &[(Option<JwsHeader>, Option<JwsHeader>)]) -> Result<(String, Vec<Signed>), (String, String)> {
+  let rec = |i: usize| Recipient { protected: hs[i].0.as_ref(), unprotected: hs[i].1.as_ref() };
+  let mut signed = Vec::new();
+  let mut sign = |i: usize, input: &[u8]| {
+    let sig = EdKey::new(i as u8 + 1).sign(input);
+    signed.push(Signed { signing_input: input.to_vec(), signature: sig.clone() });
+    sig
+  };
+  let e = |step: &str, e: identity_jose::error::Error| (step.to_string(), err_kind(&e));
+  let token = match enc {
+    0..=3 => {
+      let empty = JwsHeader::new();
+      let header = hs[0].0.as_ref().unwrap_or(&empty);
+      let encoder = match enc {
+        0 => CompactJwsEncoder::new(payload, header),
+        1 => CompactJwsEncoder::new_with_options(payload, header, CompactJwsEncodingOptions::NonDetached { charset_requirements: CharSet::Default }),
+        2 => CompactJwsEncoder::new_with_options(payload, header, CompactJwsEncodingOptions::NonDetached { charset_requirements: CharSet::UrlSafe }),
+        _ => CompactJwsEncoder::new_with_options(payload, header, CompactJwsEncodingOptions::Detached),
+      }
+      .map_err(|x| e("new", x))?;
+      let sig = sign(0, encoder.signing_input());
+      encoder.into_jws(&sig)
+    }
+    4 | 5 => {
+      let encoder = FlattenedJwsEncoder::new(payload, rec(0), enc == 5).map_err(|x| e("new", x))?;
+      let sig = sign(0, encoder.signing_input());
+      encoder.into_jws(&sig).map_err(|x| e("into_jws", x))?
+    }
+    _ => {
+      let mut processing = GeneralJwsEncoder::new(payload, rec(0), enc == 7).map_err(|x| e("new", x))?;
+      let mut i = 0;
+      loop {
+        let sig = sign(i, processing.signing_input());
+        let ready = processing.set_signature(&sig);
+        i += 1;
+        if i == hs.len() {
+          break ready.into_jws().map_err(|x| e("into_jws", x))?;
+        }
+        processing = ready.add_recipient(rec(i)).map_err(|x| e("add_recipient", x))?;
+      }
+    }
+  };
+  Ok((token, signed))
+}
+
+/// Where the token carries the protected header of signature `i` (its base64url text).
+fn token_protected(enc: u8, token: &str, i: usize) -> Option<String> {
+  match enc {
+    0..=3 => token.split('.').next().map(|s| s.to_string()),
+    4 | 5 => serde_json::from_str::<Value>(token).ok()?.get("protected").and_then(|v| v.as_str()).map(|s| s.to_string()),
+    _ => serde_json::from_str::<Value>(token).ok()?.get("signatures")?.get(i)?.get("protected").and_then(|v| v.as_str()).map(|s| s.to_string()),
+  }
+}
+
+fn decode_all<'a>(enc: u8, token: &'a str, detached: Option<&'a [u8]>) -> Result<Vec<JwsValidationItem<'a>>, identity_jose::error::Error> {
+  let d = Decoder::new();
+  match enc {
+    0..=3 => Ok(vec![d.decode_compact_serialization(token.as_bytes(), detached)?]),
+    4 | 5 => Ok(vec![d.decode_flattened_serialization(token.as_bytes(), detached)?]),
+    _ => d.decode_general_serialization(token.as_bytes(), detached)?.collect(),
+  }
+}
+
+fn judge_enc(enc: u8, payload_ix: u8, recips: &[(u8, u8)]) -> Verdict {
+  let mut v = Verdict::default();
+  let name = ENC[enc as usize];
+  let fam = enc_family(enc);
+  let payload = payloads()[payload_ix as usize].clone();
+  let hs: Vec<_> = recips.iter().enumerate().map(|(i, (p, b))| headers(i, *p, *b)).collect();
+  let what = || {
+    format!(
+      "{name}, payload {:?}, recipients {:?}",
+      String::from_utf8_lossy(&payload),
+      recips.iter().map(|(p, b)| format!("{} / b64 {}", PLACEMENT[*p as usize], B64MODE[*b as usize])).collect::<Vec<_>>()
+    )
+  };
+  let (token, signed) = match guard(|| encode(enc, &payload, &hs)) {
+    Err(p) => {
+      v.v(format!("{fam}|{}", p.key()), format!("{}: {}", what(), p.msg));
+      v.outcome = format!("enc:{name}:panic");
+      return v;
+    }
+    Ok(Err((step, kind))) => {
+      v.outcome = format!("enc:{name}:refused@{step}:{kind}");
+      return v;
+    }
+    Ok(Ok(x)) => x,
+  };
+  v.nontrivial = true;
+  let detached = enc_detached(enc);
+  let b64_of = |i: usize| hs[i].0.as_ref().and_then(|h| h.b64()).unwrap_or(true);
+  let items = match guard(|| decode_all(enc, &token, detached.then_some(&payload[..]))) {
+    Err(p) => {
+      v.v(format!("{fam}|own-decoder-{}", p.key()), format!("{}: token {token}: {}", what(), p.msg));
+      v.outcome = format!("enc:{name}:produced:decoder-panic");
+      return v;
+    }
+    Ok(Err(e)) => {
+      let escape_class = !detached && enc >= 4 && !b64_of(0) && needs_json_escape(&payload);
+      if escape_class {
+        v.v(
+          "FlattenedJwsEncoder+GeneralJwsEncoder|output-rejected-by-own-decoder|unencoded-payload-with-json-escape",
+          format!("{}: token {token}: decoder says {e}", what()),
+        );
+      } else {
+        v.v(format!("{fam}|output-rejected-by-own-decoder|{}", err_kind(&e)), format!("{}: token {token}: decoder says {e}", what()));
+      }
+      v.outcome = format!("enc:{name}:produced:own-decoder-rejects");
+      return v;
+    }
+    Ok(Ok(items)) => items,
+  };
+  if items.len() != recips.len() || signed.len() != recips.len() {
+    v.v(format!("{fam}|signature-count-differs"), format!("{}: {} signatures signed, {} decoded", what(), signed.len(), items.len()));
+    v.outcome = format!("enc:{name}:produced:wrong-signature-count");
+    return v;
+  }
+  let mut verified = 0;
+  let mut refused = 0;
+  for (i, item) in items.into_iter().enumerate() {
+    let s = &signed[i];
+    if item.signing_input() != &s.signing_input[..] {
+      v.v(format!("{fam}|decoded-signing-input-differs-from-signed"), format!("{} signature {i}: token {token}", what()));
+    }
+    if item.claims() != &payload[..] {
+      v.v(
+        format!("{fam}|decoded-claims-differ-from-payload"),
+        format!("{} signature {i}: token {token}: claims {:?}", what(), String::from_utf8_lossy(item.claims())),
+      );
+    }
+    if header_json(item.protected_header()) != header_json(hs[i].0.as_ref()) {
+      v.v(format!("{fam}|decoded-protected-header-differs"), format!("{} signature {i}: {} vs {}", what(), header_json(item.protected_header()), header_json(hs[i].0.as_ref())));
+    }
+    if header_json(item.unprotected_header()) != header_json(hs[i].1.as_ref()) {
+      v.v(format!("{fam}|decoded-unprotected-header-differs"), format!("{} signature {i}: {} vs {}", what(), header_json(item.unprotected_header()), header_json(hs[i].1.as_ref())));
+    }
+    if item.decoded_signature() != &s.signature[..] {
+      v.v(format!("{fam}|decoded-signature-differs"), format!("{} signature {i}", what()));
+    }
+    // independent formula on the token text
+    let tp = token_protected(enc, &token, i);
+    match (&tp, hs[i].0.as_ref()) {
+      (Some(text), Some(h)) => {
+        let same_json = b64url_decode(text).and_then(|b| serde_json::from_slice::<Value>(&b).ok()) == Some(header_json(Some(h)));
+        if !same_json {
+          v.v(format!("{fam}|token-protected-header-is-not-the-given-header"), format!("{} signature {i}: token {token}", what()));
+        }
+        if s.signing_input != formula(text, b64_of(i), &payload) {
+          v.v(format!("{fam}|signing-input-is-not-the-rfc-formula"), format!("{} signature {i}: token {token}", what()));
+        }
+      }
+      (None, None) => {
+        if s.signing_input != formula("", true, &payload) {
+          v.v(format!("{fam}|signing-input-is-not-the-rfc-formula"), format!("{} signature {i} (no protected header): token {token}", what()));
+        }
+      }
+      _ => v.v(format!("{fam}|token-protected-header-presence-differs"), format!("{} signature {i}: token {token}", what())),
+    }
+    // the signature really is over the decoded signing input, under this recipient's key only
+    let own = |key: &Jwk, item: &JwsValidationItem<'_>| {
+      EdDSAJwsVerifier::default().verify(
+        VerificationInput { alg: JwsAlgorithm::EdDSA, signing_input: item.signing_input().into(), decoded_signature: item.decoded_signature().into() },
+        key,
+      )
+    };
+    if own(&pub_key(i), &item).is_err() {
+      v.v(format!("{fam}|decoded-signature-does-not-verify-under-signing-key"), format!("{} signature {i}: token {token}", what()));
+    }
+    if own(&pub_key(8), &item).is_ok() {
+      v.v(format!("{fam}|decoded-signature-verifies-under-other-key"), format!("{} signature {i}", what()));
+    }
+    // the library's own verification step; it requires `alg` in the protected header (documented)
+    let alg_protected = hs[i].0.as_ref().and_then(|h| h.alg()).is_some();
+    match guard(|| item.verify(&EdDSAJwsVerifier::default(), &pub_key(i))) {
+      Err(p) => v.v(format!("JwsValidationItem::verify|{}", p.key()), p.msg),
+      Ok(Ok(decoded)) => {
+        verified += 1;
+        if decoded.claims.as_ref() != &payload[..] || header_json(Some(&decoded.protected)) != header_json(hs[i].0.as_ref()) {
+          v.v(format!("{fam}|verified-token-differs-from-signed"), format!("{} signature {i}", what()));
+        }
+        if !alg_protected {
+          v.v("JwsValidationItem::verify|accepted-without-protected-alg", format!("{} signature {i}", what()));
+        }
+      }
+      Ok(Err(e)) => {
+        refused += 1;
+        if alg_protected {
+          v.v(format!("{fam}|own-token-does-not-verify-under-signing-key"), format!("{} signature {i}: token {token}: {e}", what()));
+        }
+      }
+    }
+  }
+  // under another key nothing verifies (decode again: `verify` consumes the item)
+  if let Ok(Ok(items)) = guard(|| decode_all(enc, &token, detached.then_some(&payload[..]))) {
+    for (i, item) in items.into_iter().enumerate() {
+      if matches!(guard(|| item.verify(&EdDSAJwsVerifier::default(), &pub_key((i + 1) % 3 + 3))), Ok(Ok(_))) {
+        v.v(format!("{fam}|own-token-verifies-under-other-key"), format!("{} signature {i}", what()));
+      }
+    }
+  }
+  v.outcome = format!("enc:{name}:produced:verified={verified},verify-refused(no protected alg)={refused}");
+  v
+}
+
+// ================================================================== (b) storage path
+/// JwkMemStore behind a recorder: remembers the bytes it was asked to sign.
+struct RecStore {
+  inner: JwkMemStore,
+  signed: RefCell<Vec<Vec<u8>>>,
+}
+#[async_trait(?Send)]
+impl JwkStorage for RecStore {
+  async fn generate(&self, key_type: KeyType, alg: JwsAlgorithm) -> KeyStorageResult<JwkGenOutput> {
+    self.inner.generate(key_type, alg).await
+  }
+  async fn insert(&self, jwk: Jwk) -> KeyStorageResult<KeyId> {
+    self.inner.insert(jwk).await
+  }
+  async fn sign(&self, key_id: &KeyId, data: &[u8], public_key: &Jwk) -> KeyStorageResult<Vec<u8>> {
+    self.signed.borrow_mut().push(data.to_vec());
+    self.inner.sign(key_id, data, public_key).await
+  }
+  async fn delete(&self, key_id: &KeyId) -> KeyStorageResult<()> {
+    self.inner.delete(key_id).await
+  }
+  async fn exists(&self, key_id: &KeyId) -> KeyStorageResult<bool> {
+    self.inner.exists(key_id).await
+  }
+}
+type Store = Storage<RecStore, KeyIdMemstore>;
+
+const DID: &str = "did:example:c08";
+const FRAGS: [&str; 3] = ["m1", "m2", "m3"];
+struct Fixture {
+  doc: CoreDocument,
+  twin: CoreDocument,
+  storage: Store,
+}
+fn new_store() -> Store {
+  Storage::new(RecStore { inner: JwkMemStore::new(), signed: RefCell::new(Vec::new()) }, KeyIdMemstore::new())
+}
+fn new_doc(storage: &Store) -> CoreDocument {
+  let mut doc = CoreDocument::builder(Object::new()).id(CoreDID::parse(DID).unwrap()).build().expect("document");
+  let scopes = [MethodScope::assertion_method(), MethodScope::VerificationMethod, MethodScope::VerificationMethod];
+  for (f, s) in FRAGS.iter().zip(scopes) {
+    vx::gate::block_on(doc.generate_method(storage, JwkMemStore::ED25519_KEY_TYPE, JwsAlgorithm::EdDSA, Some(f), s)).expect("generate_method");
+  }
+  let id3 = method_id(2);
+  assert!(doc.attach_method_relationship(&id3, MethodRelationship::Authentication).expect("attach"));
+  doc
+}
+impl Fixture {
+  fn new() -> Fixture {
+    let storage = new_store();
+    let doc = new_doc(&storage);
+    let twin = new_doc(&new_store());
+    Fixture { doc, twin, storage }
+  }
+}
+thread_local! {
+  static FIXTURE: Fixture = Fixture::new();
+}
+fn method_id(m: usize) -> DIDUrl {
+  DIDUrl::parse(format!("{DID}#{}", FRAGS[m])).unwrap()
+}
+const SCOPES: [Option<MethodScope>; 7] = [
+  None,
+  Some(MethodScope::VerificationMethod),
+  Some(MethodScope::VerificationRelationship(MethodRelationship::Authentication)),
+  Some(MethodScope::VerificationRelationship(MethodRelationship::AssertionMethod)),
+  Some(MethodScope::VerificationRelationship(MethodRelationship::KeyAgreement)),
+  Some(MethodScope::VerificationRelationship(MethodRelationship::CapabilityDelegation)),
+  Some(MethodScope::VerificationRelationship(MethodRelationship::CapabilityInvocation)),
+];
+/// The document as built above: m1 only embedded in assertionMethod; m2 general; m3 general + authentication reference.
+fn in_scope(m: usize, scope: usize) -> bool {
+  match scope {
+    0 => true,
+    1 => m == 1 || m == 2,
+    2 => m == 2,
+    3 => m == 0,
+    _ => false,
+  }
+}
+
+const ENTRY: [&str; 3] = ["create_jws", "create_credential_jwt", "create_presentation_jwt"];
+const KID: [&str; 5] = ["default", "custom-string", "other-method-id", "own-fragment", "own-id"];
+const CUSTOM: [&str; 7] = ["none", "x-app+x-n", "shadow:alg", "shadow:b64", "shadow:kid", "shadow:crit", "shadow:nonce"];
+
+#[derive(Debug, Clone)]
+struct Plan {
+  entry: usize,
+  method: usize,
+  payload: usize,
+  kid: usize,
+  attach_jwk: bool,
+  b64: usize,
+  typ: bool,
+  cty: bool,
+  url: bool,
+  nonce: bool,
+  custom: usize,
+  detached: bool,
+}
+fn plan(ch: &mut Chooser) -> Plan {
+  let entry = ch.choose("entry", 3);
+  Plan {
+    entry,
+    method: ch.choose("method", 3),
+    payload: if entry == 0 { ch.choose("payload", N_PAYLOADS) } else { 0 },
+    kid: ch.choose("kid", KID.len()),
+    attach_jwk: ch.flag("attach_jwk"),
+    b64: ch.choose("b64", 3),
+    typ: ch.flag("typ"),
+    cty: ch.flag("cty"),
+    url: ch.flag("url"),
+    nonce: ch.flag("nonce"),
+    custom: ch.choose("custom", CUSTOM.len()),
+    detached: ch.flag("detached"),
+  }
+}
+fn custom_params(c: usize) -> Option<Object> {
+  let mut o = Object::new();
+  match c {
+    0 => return None,
+    1 => {
+      o.insert("x-app".into(), json!("v"));
+      o.insert("x-n".into(), json!([1, {"a": null}]));
+    }
+    2 => {
+      o.insert("alg".into(), json!("ES256"));
+    }
+    3 => {
+      o.insert("b64".into(), json!(false));
+    }
+    4 => {
+      o.insert("kid".into(), json!("shadow-kid"));
+    }
+    5 => {
+      o.insert("crit".into(), json!(["b64"]));
+    }
+    _ => {
+      o.insert("nonce".into(), json!("shadow-nonce"));
+    }
+  }
+  Some(o)
+}
+fn credential() -> Credential {
+  CredentialBuilder::default()
+    .id(Url::parse("https://example.edu/credentials/3732").unwrap())
+    .issuer(Url::parse(DID).unwrap())
+    .type_("UniversityDegreeCredential")
+    .subject(Subject::with_id(Url::parse("did:example:subject").unwrap()))
+    .issuance_date(vx::fx::ts(vx::fx::NOW))
+    .build()
+    .expect("credential")
+}
+fn presentation() -> Presentation<Jwt> {
+  PresentationBuilder::new(Url::parse(DID).unwrap(), Object::new()).credential(Jwt::new("eyJhbGciOiJFZERTQSJ9.e30.c2ln".to_string())).build().expect("presentation")
+}
+
+static VERIFICATIONS: AtomicU64 = AtomicU64::new(0);
+
+fn judge_store(p: &Plan) -> Verdict {
+  FIXTURE.with(|fx| judge_store_on(fx, p))
+}
+fn judge_store_on(fx: &Fixture, p: &Plan) -> Verdict {
+  let mut v = Verdict::default();
+  let entry = ENTRY[p.entry];
+  let m = p.method;
+  let other = (m + 1) % 3;
+  // ---- options
+  let mut o = JwsSignatureOptions::new();
+  match p.kid {
+    1 => o = o.kid("custom-kid"),
+    2 => o = o.kid(method_id(other).to_string()),
+    3 => o = o.kid(format!("#{}", FRAGS[m])),
+    4 => o = o.kid(method_id(m).to_string()),
+    _ => {}
+  }
+  if p.attach_jwk {
+    o = o.attach_jwk_to_header(true);
+  }
+  match p.b64 {
+    1 => o = o.b64(true),
+    2 => o = o.b64(false),
+    _ => {}
+  }
+  if p.typ {
+    o = o.typ("example+jwt");
+  }
+  if p.cty {
+    o = o.cty("vc+ld+json");
+  }
+  let url = Url::parse("https://example.com/acme/new-order").unwrap();
+  if p.url {
+    o = o.url(url.clone());
+  }
+  if p.nonce {
+    o = o.nonce("nonce-1");
+  }
+  if let Some(c) = custom_params(p.custom) {
+    o = o.custom_header_parameters(c);
+  }
+  if p.detached {
+    o = o.detached_payload(true);
+  }
+  // ---- payload
+  let payload: Vec<u8> = match p.entry {
+    0 => payloads()[p.payload].clone(),
+    1 => credential().serialize_jwt(None).expect("serialize_jwt").into_bytes(),
+    _ => presentation().serialize_jwt(&JwtPresentationOptions::default()).expect("serialize_jwt").into_bytes(),
+  };
+  let what = format!("{entry} for #{} with {o:?}, payload {:?}", FRAGS[m], String::from_utf8_lossy(&payload));
+  // ---- produce
+  fx.storage.key_storage().signed.borrow_mut().clear();
+  let produced: Result<Result<String, String>, vx::Panicked> = guard(|| {
+    vx::gate::block_on(async {
+      match p.entry {
+        0 => fx.doc.create_jws(&fx.storage, FRAGS[m], &payload, &o).await.map(|j| j.as_str().to_string()),
+        1 => fx.doc.create_credential_jwt(&credential(), &fx.storage, FRAGS[m], &o, None).await.map(|j| j.as_str().to_string()),
+        _ => fx.doc.create_presentation_jwt(&presentation(), &fx.storage, FRAGS[m], &o, &JwtPresentationOptions::default()).await.map(|j| j.as_str().to_string()),
+      }
+      .map_err(|e| err_kind(&e))
+    })
+  });
+  let shape = format!("b64={},{}", ["unset", "true", "false"][p.b64], if p.detached { "detached" } else { "attached" });
+  let token = match produced {
+    Err(pn) => {
+      v.v(format!("{entry}|{}", pn.key()), format!("{what}: {}", pn.msg));
+      v.outcome = format!("store:{entry}:panic");
+      return v;
+    }
+    Ok(Err(kind)) => {
+      v.outcome = format!("store:{entry}:refused:{kind}:{shape}");
+      return v;
+    }
+    Ok(Ok(t)) => t,
+  };
+  v.nontrivial = true;
+  let signed: Vec<Vec<u8>> = fx.storage.key_storage().signed.borrow().clone();
+  let detached_payload: Option<&[u8]> = p.detached.then_some(&payload[..]);
+  let decoded = guard(|| Decoder::new().decode_compact_serialization(token.as_bytes(), detached_payload).map_err(|e| e.to_string()));
+  if p.custom >= 2 {
+    // custom parameters that shadow registered ones: executed and recorded, not judged
+    v.outcome = format!(
+      "store:{entry}:signed:{}(recorded-only):{}",
+      CUSTOM[p.custom],
+      match decoded {
+        Ok(Ok(_)) => "decodes",
+        Ok(Err(_)) => "own-decoder-rejects",
+        Err(_) => "decoder-panic",
+      }
+    );
+    return v;
+  }
+  let item = match decoded {
+    Err(pn) => {
+      v.v(format!("{entry}|own-decoder-{}", pn.key()), format!("{what}: token {token}: {}", pn.msg));
+      v.outcome = format!("store:{entry}:signed:decoder-panic");
+      return v;
+    }
+    Ok(Err(e)) => {
+      v.v(format!("{entry}|token-rejected-by-own-decoder"), format!("{what}: token {token}: {e}"));
+      v.outcome = format!("store:{entry}:signed:own-decoder-rejects");
+      return v;
+    }
+    Ok(Ok(item)) => item,
+  };
+  // ---- what was signed
+  if signed.len() != 1 || item.signing_input() != &signed[0][..] {
+    v.v(format!("{entry}|decoded-signing-input-differs-from-signed-bytes"), format!("{what}: token {token}: {} sign calls", signed.len()));
+  }
+  if item.claims() != &payload[..] {
+    v.v(format!("{entry}|decoded-claims-differ-from-payload"), format!("{what}: token {token}"));
+  }
+  let want_b64 = p.b64 != 2;
+  let seg0 = token.split('.').next().unwrap_or("");
+  if signed.first().map(|s| &s[..]) != Some(&formula(seg0, want_b64, &payload)[..]) {
+    v.v(format!("{entry}|signed-bytes-are-not-the-rfc-formula"), format!("{what}: token {token}"));
+  }
+  // ---- header against the options
+  let method_jwk: Jwk = match fx.doc.resolve_method(FRAGS[m], None).map(|x| x.data()) {
+    Some(MethodData::PublicKeyJwk(j)) => j.clone(),
+    _ => unreachable!("fixture method"),
+  };
+  match item.protected_header() {
+    None => v.v(format!("{entry}|no-protected-header"), what.clone()),
+    Some(h) => {
+      let mut bad = |param: &str, got: String| v.v(format!("{entry}|header-{param}-not-as-requested"), format!("{what}: got {got}"));
+      if h.alg() != Some(JwsAlgorithm::EdDSA) {
+        bad("alg", format!("{:?}", h.alg()));
+      }
+      let want_kid = match p.kid {
+        1 => "custom-kid".to_string(),
+        2 => method_id(other).to_string(),
+        3 => format!("#{}", FRAGS[m]),
+        _ => method_id(m).to_string(),
+      };
+      if h.kid() != Some(want_kid.as_str()) {
+        bad("kid", format!("{:?}", h.kid()));
+      }
+      if h.typ() != Some(if p.typ { "example+jwt" } else { "JWT" }) {
+        bad("typ", format!("{:?}", h.typ()));
+      }
+      if h.cty() != p.cty.then_some("vc+ld+json") {
+        bad("cty", format!("{:?}", h.cty()));
+      }
+      if h.url() != p.url.then_some(&url) {
+        bad("url", format!("{:?}", h.url()));
+      }
+      if h.nonce() != p.nonce.then_some("nonce-1") {
+        bad("nonce", format!("{:?}", h.nonce()));
+      }
+      if h.jwk() != p.attach_jwk.then_some(&method_jwk) {
+        bad("jwk", format!("{:?}", h.jwk().map(|j| j.kid().map(|s| s.to_string()))));
+      }
+      if p.b64 == 2 {
+        if h.b64() != Some(false) || !h.crit().map(|c| c.iter().any(|x| x == "b64")).unwrap_or(false) {
+          bad("b64", format!("b64 {:?} crit {:?}", h.b64(), h.crit()));
+        }
+      } else if h.b64() == Some(false) {
+        bad("b64", format!("b64 {:?}", h.b64()));
+      }
+      let got_custom = h.custom().cloned().unwrap_or_default();
+      let want_custom: BTreeMap<String, Value> = custom_params(p.custom).unwrap_or_default().into_iter().collect();
+      if got_custom != want_custom {
+        bad("custom", format!("{got_custom:?}"));
+      }
+    }
+  }
+  drop(item);
+  // ---- verification matrix
+  let verifier = EdDSAJwsVerifier::default();
+  let mut accepted = 0;
+  for mid in 0..4usize {
+    // selector the verification is asked to use, by the documented rule: options.method_id, else the token's kid
+    let selected: Option<usize> = if mid > 0 {
+      Some(mid - 1)
+    } else {
+      match p.kid {
+        1 => None,
+        2 => Some(other),
+        _ => Some(m),
+      }
+    };
+    for (si, scope) in SCOPES.iter().enumerate() {
+      for nv in 0..3usize {
+        let mut vo = JwsVerificationOptions::new();
+        if mid > 0 {
+          vo = vo.method_id(method_id(mid - 1));
+        }
+        if let Some(s) = scope {
+          vo = vo.method_scope(*s);
+        }
+        match (nv, p.nonce) {
+          (0, true) => vo = vo.nonce("nonce-1"),
+          (0, false) => {}
+          (1, _) => vo = vo.nonce("different-nonce"),
+          (_, true) => {}
+          (_, false) => vo = vo.nonce("nonce-1"),
+        }
+        VERIFICATIONS.fetch_add(1, Ordering::Relaxed);
+        let r = guard(|| fx.doc.verify_jws(&token, detached_payload, &verifier, &vo).map(|d| (d.claims.to_vec(), header_json(Some(&d.protected)))).map_err(|e| e.to_string()));
+        let ctx_txt = || format!("{what}: token {token}; verify with method_id {:?}, scope {:?}, nonce {:?}", vo.method_id.as_ref().map(|d| d.to_string()), scope.map(|s| s.as_str()), vo.nonce);
+        let may = selected == Some(m) && in_scope(m, si) && nv == 0;
+        let must = may && !(mid == 0 && p.kid == 3);
+        match r {
+          Err(pn) => v.v(format!("CoreDocument::verify_jws|{}", pn.key()), format!("{}: {}", ctx_txt(), pn.msg)),
+          Ok(Ok((claims, _))) => {
+            accepted += 1;
+            if !may {
+              let why = if nv != 0 {
+                "nonce-mismatch"
+              } else if selected.is_none() {
+                "unresolvable-kid"
+              } else if selected != Some(m) {
+                "other-method-key"
+              } else {
+                "method-outside-scope"
+              };
+              v.v(format!("CoreDocument::verify_jws|accepted|{why}"), ctx_txt());
+            } else if claims != payload {
+              v.v("CoreDocument::verify_jws|accepted|claims-differ-from-payload", ctx_txt());
+            }
+          }
+          Ok(Err(e)) => {
+            if must {
+              v.v(format!("CoreDocument::verify_jws|rejected|own-token-for-its-method"), format!("{}: {e}", ctx_txt()));
+            }
+          }
+        }
+      }
+    }
+  }
+  // a document with the same ids but other keys
+  for mid in [None, Some(m)] {
+    let mut vo = JwsVerificationOptions::new();
+    if let Some(x) = mid {
+      vo = vo.method_id(method_id(x));
+    }
+    if p.nonce {
+      vo = vo.nonce("nonce-1");
+    }
+    VERIFICATIONS.fetch_add(1, Ordering::Relaxed);
+    if matches!(guard(|| fx.twin.verify_jws(&token, detached_payload, &verifier, &vo).map(|_| ())), Ok(Ok(()))) {
+      v.v("CoreDocument::verify_jws|accepted|other-document-same-ids", format!("{what}: token {token}"));
+    }
+  }
+  v.outcome = format!("store:{entry}:signed:{shape}:kid={}:accepting-verifications={accepted}", KID[p.kid]);
+  v
+}
+
+fn store_body(ctx: &Ctx, ch: &mut Chooser) {
+  let p = plan(ch);
+  let v = judge_store(&p);
+  let case = Case::Store { seq: ch.seq(), note: ch.labelled() };
+  for (k, w) in &v.viol {
+    ctx.violation(k, w, &case);
+  }
+  ctx.outcome(&v.outcome);
+  if v.nontrivial {
+    ctx.distinct(&(1u8, ch.seq()));
+  }
+  if ch.deviations() <= 1 {
+    ctx.sample("storage", &case);
+  }
+}
+
+// ================================================================== driver
+fn eval(ctx: &Ctx, case: &Case) {
+  ctx.eval1();
+  match case {
+    Case::Enc { enc, payload, recips } => {
+      let v = judge_enc(*enc, *payload, recips);
+      for (k, w) in &v.viol {
+        ctx.violation(k, w, case);
+      }
+      ctx.outcome(&v.outcome);
+      if v.nontrivial {
+        ctx.distinct(&(0u8, enc, payload, recips));
+      }
+    }
+    Case::Store { seq, .. } => store_body(ctx, &mut Chooser::replay(seq)),
+  }
+}
+
+fn run_enc_part(ctx: &Ctx, part: &str, cases: &[Case]) {
+  for i in [0, cases.len() / 3, 2 * cases.len() / 3, cases.len() - 1] {
+    ctx.sample(part, &cases[i]);
+  }
+  cases.par_chunks(256).for_each(|chunk| {
+    let mut hist: BTreeMap<String, u64> = BTreeMap::new();
+    let mut distinct = Vec::new();
+    for c in chunk {
+      let Case::Enc { enc, payload, recips } = c else { continue };
+      let v = judge_enc(*enc, *payload, recips);
+      for (k, w) in &v.viol {
+        ctx.violation(k, w, c);
+      }
+      *hist.entry(v.outcome).or_insert(0) += 1;
+      if v.nontrivial {
+        distinct.push(Ctx::hash_of(&(0u8, enc, payload, recips)));
+      }
+    }
+    ctx.outcomes_merge(&hist);
+    ctx.distinct_many(distinct);
+    ctx.add_evals(chunk.len() as u64);
+  });
+  let n = cases.len() as u64;
+  ctx.add_states(n);
+  ctx.add_transitions(n);
+  ctx.add_traces(n);
+  ctx.part(part, json!({"engine": "E1 full product", "cases": n}));
+}
+
+fn self_test(ctx: &Ctx) {
+  ctx.require(b64url(b"\xfb\xff\xfe") == "-__-" && b64url(b"ab") == "YWI" && b64url(b"a") == "YQ", "own base64url encoder");
+  ctx.require(b64url_decode("YWI") == Some(b"ab".to_vec()) && b64url_decode("-__-") == Some(vec![0xfb, 0xff, 0xfe]), "own base64url decoder");
+  // RFC 7515 A.1: signing input of the example starts with the encoded header and a period
+  ctx.require(formula("eyJhbGciOiJIUzI1NiJ9", true, b"hi") == b"eyJhbGciOiJIUzI1NiJ9.aGk".to_vec(), "own signing-input formula");
+  ctx.require(payloads().len() == N_PAYLOADS, "payload menu size");
+}
+
+fn generate(ctx: &Ctx) {
+  ctx.rule("(a) full product encoder x payload x per-recipient (header placement x b64 mode); (b) choice DFS over (entry, method, payload, kid, attach_jwk, b64, typ, cty, url, nonce, custom, detached), each produced token verified under the complete (method_id x scope x nonce) matrix. distinct_nontrivial = distinct cases in which the library actually produced a token (encoder / create_* refusals are the trivial outcome)");
+  ctx.assume("Ed25519 (iota-crypto) and the EdDSA verifier crate are trusted as signature primitives; harness keys are fixed-seed, store keys are random opaque handles");
+  ctx.assume("verification liveness is demanded only where `alg` is in the protected header (documented precondition of JwsValidationItem::verify) and, on the storage path, where the method is selected by options.method_id or by a kid equal to the method's full id");
+  self_test(ctx);
+  let thorough = ctx.thorough();
+
+  // ---------- (a)
+  let n_pay = N_PAYLOADS as u8;
+  let mut single = Vec::new();
+  for enc in 0..4u8 {
+    for payload in 0..n_pay {
+      for placement in [0u8, 4, 6] {
+        for b64 in 0..4u8 {
+          single.push(Case::Enc { enc, payload, recips: vec![(placement, b64)] });
+        }
+      }
+    }
+  }
+  for enc in 4..8u8 {
+    for payload in 0..n_pay {
+      for placement in 0..7u8 {
+        for b64 in 0..5u8 {
+          single.push(Case::Enc { enc, payload, recips: vec![(placement, b64)] });
+        }
+      }
+    }
+  }
+  run_enc_part(ctx, "encoders: one signature", &single);
+  let all: Vec<(u8, u8)> = (0..7u8).flat_map(|p| (0..5u8).map(move |b| (p, b))).collect();
+  let reduced: Vec<(u8, u8)> = [0u8, 1, 2, 3].iter().flat_map(|p| [0u8, 2].map(move |b| (*p, b))).collect();
+  let mut two = Vec::new();
+  for enc in 6..8u8 {
+    for payload in 0..n_pay {
+      for a in &all {
+        for b in &all {
+          two.push(Case::Enc { enc, payload, recips: vec![*a, *b] });
+        }
+      }
+    }
+  }
+  run_enc_part(ctx, "encoders: general, two signatures", &two);
+  let mut three = Vec::new();
+  let (set3, pays3): (&Vec<(u8, u8)>, Vec<u8>) = if thorough { (&all, vec![0, 2, 3, 5, 6, 7, 12]) } else { (&reduced, (0..n_pay).collect()) };
+  for enc in 6..8u8 {
+    for &payload in &pays3 {
+      for a in set3 {
+        for b in set3 {
+          for c in set3 {
+            three.push(Case::Enc { enc, payload, recips: vec![*a, *b, *c] });
+          }
+        }
+      }
+    }
+  }
+  run_enc_part(ctx, "encoders: general, three signatures", &three);
+  ctx.bound("general_recipients", 3);
+  ctx.bound("three_recipient_alphabet", if thorough { "all 35 (placement, b64) pairs x 7 payloads" } else { "8 (placement, b64) pairs x 14 payloads" });
+  if !thorough {
+    ctx.cap_hit("encoders: three-signature cases use the reduced 8-pair recipient alphabet in the quick tier (one- and two-signature products are complete)");
+  } else {
+    ctx.cap_hit("encoders: three-signature cases use 7 of the 14 payloads (all 35^3 recipient combinations); one- and two-signature products are complete");
+  }
+
+  // ---------- (b)
+  let bound = if thorough { Some(5) } else { Some(3) };
+  let st = choice::explore_into(ctx, "storage", bound, |ch| store_body(ctx, ch));
+  ctx.part("storage: verify_jws calls", json!({"verify_jws_calls": VERIFICATIONS.load(Ordering::Relaxed), "per_token": 86, "tokens_or_refusals": st.executions}));
+  ctx.bound("storage_deviation_bound", bound);
+  ctx.bound("payload_menu", payloads().iter().map(|p| String::from_utf8_lossy(p).into_owned()).collect::<Vec<_>>());
+  ctx.bound("placements", PLACEMENT);
+  ctx.bound("b64_modes", B64MODE);
+}
+
+fn main() {
+  vx::run_main::<Case, _, _>("C08", Level::ModelChecking, generate, eval)
+}
